@@ -16,8 +16,9 @@ CHECK = dict(
         dict(name="hashprefix", dir=F + "hashprefix", src="C11/hashprefix", runs=[
             dict(name="filter", run="^TestVerifC11Filter$", quick=8000, thorough=480000, shards_thorough=8),
             dict(name="matcher", run="^TestVerifC11Matcher$", quick=6000, thorough=400000, shards_thorough=4),
-            dict(name="concurrent", run="^TestVerifC11Concurrent$", quick=150, thorough=3000, shards_thorough=3),
-            dict(name="concurrent-race", run="^TestVerifC11Concurrent$", quick=25, thorough=200, race=True),
+            dict(name="concurrent", run="^TestVerifC11Concurrent$", quick=80, thorough=1500, shards_thorough=3),
+            dict(name="concurrent-filter", run="^TestVerifC11ConcurrentFilter$", quick=60, thorough=900, shards_thorough=3),
+            dict(name="concurrent-race", run="^TestVerifC11Concurrent(Filter)?$", quick=15, thorough=90, race=True),
         ]),
         dict(name="preservice", dir="internal/dnssvc/internal/preservice", src="C11/preservice", runs=[
             dict(name="txt", run="^TestVerifC11Preservice$", quick=6000, thorough=300000, shards_thorough=4),
